@@ -607,6 +607,17 @@ impl KeyKeeper {
 
     fn store_local_key(key_dir: &Path, key: &Key, encrypted: bool) -> Result<()> {
         let guid = key.guid.to_string();
+        // the key id names the key file: it must be a plain file name, never a path out of the key directory
+        let mut components = Path::new(&guid).components();
+        if !matches!(
+            (components.next(), components.next()),
+            (Some(std::path::Component::Normal(_)), None)
+        ) {
+            return Err(Error::Key(KeyErrorType::StoreLocalKey(format!(
+                "key guid '{}' is not a valid file name",
+                guid
+            ))));
+        }
         let mut key_file = key_dir.to_path_buf().join(guid);
         if encrypted {
             key_file.set_extension("encrypted");
